@@ -1,18 +1,22 @@
 import WacProofs.Props.C09General
-import WacProofs.Lemmas.AggNAll
+import WacProofs.Lemmas.AggNAllTotal
 /-
   C09 — general theorems for the NESTED fragment (`nfragB cs = true`, decidable): every contributor
   is an instance requirement whose interface, and every interface nested in it to any depth, is
-  anonymous (no id), has no `uses`, and exports functions, values and instances of such
-  interfaces; collections are sane (no resources, every defined type unfolds) and separate.
+  anonymous (no id), has no `uses`, and exports functions, values, `type` exports of function /
+  value types, instances of such interfaces and `type` exports of such interfaces (`wrapK`);
+  collections are sane (no resources, every defined type unfolds) and separate.
   Requirement names are arbitrary.  Configuration: the repaired code (`Agg.empty`, in particular
-  `cfg.nestedMerge`: fix c7305c6 "nested instances are merged recursively on a copy").
+  `cfg.nestedMerge`: fix c7305c6 "nested instances are merged recursively on a copy", and
+  `cfg.typeMerge`: fix e9ab666, the same for `type` exports of interface type = finding 8).
 
   Proved: the invariant, `agg_upper_bound_nested`, `agg_greatest_nested`, `agg_perm_nested_partial`
   (when both orders succeed), `lower_redirected_nested`, `canonical_highest_nested`, and
   `merge_interface_nested` (one `merge_interface` call = the specification's `meet`, at every
-  nesting depth).  Not proved for this fragment: totality / `fails_iff_incompatible` (so the verdict
-  half of `agg_perm` and `agg_idempotent`); they are proved for the flat fragment in C09General.
+  nesting depth), and TOTALITY: `fails_iff_incompatible_nested` (never panics; `Ok` exactly when
+  every class of semver-compatible requirement names has a common subtype — an order-independent
+  condition), `agg_perm_nested` (full: verdict and trees), `merge_interface_nested_fails_iff`.
+  Not proved for this fragment: `agg_idempotent` (proved for the flat fragment in C09General).
 -/
 namespace Wac.Props.C09Nested
 open Wac Wac.Spec Wac.AggP Wac.Props.C09General
@@ -230,5 +234,226 @@ example : nfragB [qA, qB] = true ∧ (aggregateAll [qA, qB] Agg.empty).toOption.
     (aggregateAll [qA, qB] Agg.empty).toOption.map (fun A => A.agg.imports.map (·.1)) = some ["a:b/c@1.2.0".toList] ∧
     [qA, qB].Perm [qB, qA] ∧ compat qA.1 qB.1 = true := by
   refine ⟨by decide +kernel, by decide +kernel, by decide +kernel, by decide +kernel, List.Perm.swap _ _ _, by decide⟩
+
+/-! ### totality, `fails_iff_incompatible`, full order independence -/
+
+/-- every class of semver-compatible requirement names has a common subtype: a type with distinct
+names that is a subtype of the requirement of every member of the class -/
+def ClassLB (cs : List Req) : Prop :=
+  ∀ r, r ∈ cs → ∃ X : Tree, X.namesDistinct = true ∧
+    ∀ r', r' ∈ cs → compat r'.1 r.1 = true → ∀ c, r'.2.1.unfold r'.2.2 = some c → sub X c = true
+
+theorem allLB_iff_classLB (cs : List Req) (hall : ∀ r, r ∈ cs → (nestForest r).isSome = true) :
+    AllLB (withNForests cs) ↔ ClassLB cs := by
+  constructor
+  · intro h r hr
+    obtain ⟨G, hmem, _⟩ := mem_withNForests hall hr
+    obtain ⟨X, hX, hXall⟩ := h (r, G) hmem
+    refine ⟨X, hX, fun r' hr' hc c hcu => ?_⟩
+    obtain ⟨G', hmem', hfG'⟩ := mem_withNForests hall hr'
+    have := hXall (r', G') hmem' hc
+    rw [(nestForest_spec hfG').2] at hcu
+    cases hcu
+    exact this
+  · intro h q hq
+    obtain ⟨hqm, hfq⟩ := withNForests_mem hq
+    obtain ⟨X, hX, hXall⟩ := h q.1 hqm
+    refine ⟨X, hX, fun q' hq' hc => ?_⟩
+    obtain ⟨hqm', hfq'⟩ := withNForests_mem hq'
+    exact hXall q'.1 hqm' hc _ (nestForest_spec hfq').2
+
+/-- **`fails_iff_incompatible_nested`** (nested fragment, full): aggregation never panics; it
+succeeds exactly when every class of semver-compatible requirement names has a common subtype
+(`ClassLB`, an order-independent condition of the specification: `meet_isSome_iff`); otherwise
+it returns an error. -/
+theorem fails_iff_incompatible_nested (cs : List Req) (hf : nfragB cs = true) :
+    ((∃ A, aggregateAll cs Agg.empty = .ok A) ↔ ClassLB cs) ∧
+    (∀ e, aggregateAll cs Agg.empty = .error e → ∃ m, e = .err m) := by
+  obtain ⟨hall, hpw⟩ := nfragB_spec hf
+  have hmap := withNForests_map (fun r hr => (hall r hr).1)
+  have := aggregateAll_ntotal (W := collsOf cs hpw) (withNForests cs) [] Agg.empty
+    (ginvN_empty _ (by rintro C ⟨r, hr, rfl⟩; exact (hall r hr).2)) rfl
+    (by
+      intro p hp
+      obtain ⟨hm, hfp⟩ := withNForests_mem hp
+      exact ⟨(nestForest_spec hfp).1, p.1, hm, rfl⟩)
+    (by intro p _ q hq; cases hq)
+    (by
+      have : ((withNForests cs).map (·.1)).Pairwise (fun a b : Req => a.2.1.uid ≠ b.2.1.uid) := by
+        rw [hmap]; exact hpw
+      exact (List.pairwise_map (f := fun p : Req × Forest => p.1) (R := fun a b : Req => a.2.1.uid ≠ b.2.1.uid)).1 this)
+  rw [hmap, lbFrom_nil_iff, allLB_iff_classLB cs (fun r hr => (hall r hr).1)] at this
+  exact this
+
+/-- `i: instance { x: instance { a: func() } }` against `i: instance { x: func() }` (an instance
+against a function under the same name) and against `i: instance { x: instance { a: value u8 } }`
+(a mismatch two levels down) -/
+def nC : Types := { uid := 3, funcs := [{}], interfaces := [{ exports := [(['x'], .func 0)] }] }
+def nD : Types :=
+  { uid := 4, interfaces := [{ exports := [(['a'], .value (.prim .u8))] }, { exports := [(['x'], .instance 0)] }] }
+def qC : Req := ("a:b/c@1.3.0".toList, nC, .instance 0)
+def qD : Req := ("a:b/c@1.0.5".toList, nD, .instance 1)
+
+/-- both directions are exercised: a compatible list succeeds, incompatible ones fail with an
+error (not a panic), in every position of the offending requirement -/
+example : nfragB [qA, qB] = true ∧ nfragB [qA, qC] = true ∧ nfragB [qA, qB, qD] = true ∧
+    (aggregateAll [qA, qB] Agg.empty).toOption.isSome = true ∧
+    (aggregateAll [qA, qC] Agg.empty).toOption.isSome = false ∧
+    (aggregateAll [qC, qA] Agg.empty).toOption.isSome = false ∧
+    (aggregateAll [qA, qB, qD] Agg.empty).toOption.isSome = false ∧
+    (aggregateAll [qD, qB, qA] Agg.empty).toOption.isSome = false := by decide +kernel
+
+/-- **`agg_perm_nested`** (nested fragment, FULL): for a permutation of the contributors the
+verdict is the same (`Ok` in one order iff `Ok` in the other; an error is never a panic) and, when
+it is `Ok`, every contributor's merged import is the same type up to the order of its exports. -/
+theorem agg_perm_nested (cs cs' : List Req) (hp : cs.Perm cs') (hf : nfragB cs = true) :
+    ((∃ A, aggregateAll cs Agg.empty = .ok A) ↔ (∃ A', aggregateAll cs' Agg.empty = .ok A')) ∧
+    (∀ e, aggregateAll cs' Agg.empty = .error e → ∃ m, e = .err m) ∧
+    (∀ A A', aggregateAll cs Agg.empty = .ok A → aggregateAll cs' Agg.empty = .ok A' →
+      ∀ r, r ∈ cs → ∀ m m', MergedTree A r.1 m → MergedTree A' r.1 m' → sub m m' = true ∧ sub m' m = true) := by
+  have hf' := nfragB_perm hp hf
+  refine ⟨?_, (fails_iff_incompatible_nested cs' hf').2,
+    fun A A' h h' r hr m m' hm hm' => agg_perm_nested_partial cs cs' hp hf A A' h h' r hr m m' hm hm'⟩
+  rw [(fails_iff_incompatible_nested cs hf).1, (fails_iff_incompatible_nested cs' hf').1]
+  exact ⟨fun h r hr => by
+      obtain ⟨X, hX, hall⟩ := h r (hp.mem_iff.2 hr)
+      exact ⟨X, hX, fun r' hr' => hall r' (hp.mem_iff.2 hr')⟩,
+    fun h r hr => by
+      obtain ⟨X, hX, hall⟩ := h r (hp.mem_iff.1 hr)
+      exact ⟨X, hX, fun r' hr' => hall r' (hp.mem_iff.1 hr')⟩⟩
+
+example : [qA, qB, qD].Perm [qD, qB, qA] ∧ nfragB [qA, qB, qD] = true := ⟨by decide, by decide +kernel⟩
+
+/-- `i: instance { t: instance { a: func() } }` (an instance where `uA`/`uB` have a `type` export) -/
+def uC : Types :=
+  { uid := 3, funcs := [{}], interfaces := [{ exports := [(['a'], .func 0)] }, { exports := [(['t'], .instance 0)] }] }
+
+/-- **the requirements of finding 8 are inside the nested fragment**: `type` exports of interface
+type (`t: type instance { a }` and `t: type instance { a, b }`, `uA`/`uB` of C09General) are merged
+recursively like nested instances, so `agg_upper_bound_nested`, `agg_greatest_nested`,
+`fails_iff_incompatible_nested` and `agg_perm_nested` apply to the repaired branch (with the
+pinned configuration the upper bound fails: `C09General.type_export_upper_bound_counterexample`).
+A `type` export against an instance export of the same name is an error in both orders. -/
+example : nfragB [(['i'], uA, .instance 1), (['i'], uB, .instance 1)] = true ∧
+    (aggregateAll [(['i'], uA, .instance 1), (['i'], uB, .instance 1)] Agg.empty).toOption.isSome = true ∧
+    (aggregateAll [(['i'], uB, .instance 1), (['i'], uA, .instance 1)] Agg.empty).toOption.isSome = true ∧
+    nfragB [(['i'], uA, .instance 1), (['i'], uC, .instance 1)] = true ∧
+    (aggregateAll [(['i'], uA, .instance 1), (['i'], uC, .instance 1)] Agg.empty).toOption.isSome = false ∧
+    (aggregateAll [(['i'], uC, .instance 1), (['i'], uA, .instance 1)] Agg.empty).toOption.isSome = false := by
+  decide +kernel
+
+/-- **`merge_interface_nested_fails_iff`**: one `merge_interface` call on the nested fragment, with
+enough fuel, never panics, and fails exactly when the specification's merge of the two instance
+types is undefined — i.e. (`meet_isSome_iff`) when they have no common subtype. -/
+theorem merge_interface_nested_fails_iff {W : Colls} {types : Types} (hW : W.mem types) (hs : Sane types)
+    (fuel : Nat) (S : Nat → Prop) (e id m : Nat) (s : AggState) (F G : Forest) (d : Nat)
+    (hT : NState W types S e s F) (hcfg : s.cfg.remapReplaced = true) (hsrc : SrcOK types d id)
+    (hG : ∀ si, types.interfaces[id]? = some si → unfoldItems (types.unfoldKind m) si.exports = some G)
+    (hm : m < types.fuel) (hGnd : G.namesDistinct = true) (hfuel : 2 * m + 2 ≤ fuel) :
+    ((∃ s', mergeInterface fuel e types id s = .ok ((), s')) ∨
+      (∃ msg, mergeInterface fuel e types id s = .error (.err msg))) ∧
+    ((∃ s', mergeInterface fuel e types id s = .ok ((), s')) ↔ ∃ M, meet (.instance F) (.instance G) = some M) := by
+  have hG' : ∀ si, types.interfaces[id]? = some si → unfoldItems (types.unfoldKind types.fuel) si.exports = some G :=
+    fun si hsi => unfoldItems_fuel_mono (Nat.le_of_lt hm) (hG si hsi)
+  rcases mergeInterface_ntotal hW hs fuel S e id m s F G d hT hcfg hsrc hG hm hGnd hfuel with ⟨s1, h1⟩ | ⟨msg, h1, hnone⟩
+  · refine ⟨.inl ⟨s1, h1⟩, fun _ => ?_, fun _ => ⟨s1, h1⟩⟩
+    obtain ⟨R, _, _, hmeet⟩ := mergeInterface_nest hW hs fuel S e id s s1 F G d hT hsrc hG' hGnd h1
+    exact ⟨_, hmeet⟩
+  · refine ⟨.inr ⟨msg, h1⟩, ⟨(fun ⟨s1, h2⟩ => by rw [h1] at h2; cases h2), (fun ⟨M, hM⟩ => ?_)⟩⟩
+    simp [meet, hnone] at hM
+
+/-! ### equal requirements merge to themselves -/
+
+theorem nfragB_of_snoc {cs : List Req} {r' : Req} (h : nfragB (cs ++ [r']) = true) : nfragB cs = true := by
+  obtain ⟨h1, h2⟩ := nfragB_spec h
+  simp only [nfragB, Bool.and_eq_true, List.all_eq_true, decide_eq_true_eq]
+  exact ⟨fun r hr => h1 r (List.mem_append_left _ hr), (List.pairwise_append.1 h2).1⟩
+
+/-- **`agg_absorb_nested`** (nested fragment; target 3 for a requirement that arrives again from
+another collection): after a successful aggregation, aggregating a requirement `r'` of a new
+collection whose type equals that of a contributor `r` with a semver-compatible name succeeds, and
+every contributor's merged import stays the same type up to the order of exports — equal
+requirements merge to themselves, at every nesting depth.  (Re-aggregating `r` itself, i.e. with
+the SAME collection uid, is `agg_idempotent`; it is proved for the flat fragment only.) -/
+theorem agg_absorb_nested (cs : List Req) (r r' : Req) (hr : r ∈ cs) (hf' : nfragB (cs ++ [r']) = true)
+    (hc : compat r.1 r'.1 = true) (htree : r'.2.1.unfold r'.2.2 = r.2.1.unfold r.2.2)
+    (A : AggState) (h : aggregateAll cs Agg.empty = .ok A) :
+    ∃ A', aggregate r'.1 r'.2.1 r'.2.2 A = .ok ((), A') ∧
+      ∀ q, q ∈ cs → ∀ m m', MergedTree A q.1 m → MergedTree A' q.1 m' → sub m m' = true ∧ sub m' m = true := by
+  have hf := nfragB_of_snoc hf'
+  have hLB := (fails_iff_incompatible_nested cs hf).1.1 ⟨A, h⟩
+  -- the extended list has common subtypes, too
+  have hLB' : ClassLB (cs ++ [r']) := by
+    have key : ∀ x, x ∈ cs → ∃ X : Tree, X.namesDistinct = true ∧
+        ∀ r'', r'' ∈ cs ++ [r'] → compat r''.1 x.1 = true → ∀ c, r''.2.1.unfold r''.2.2 = some c → sub X c = true := by
+      intro x hx
+      obtain ⟨X, hX, hXall⟩ := hLB x hx
+      refine ⟨X, hX, fun r'' hr'' hcx c hcu => ?_⟩
+      rcases List.mem_append.1 hr'' with h1 | h1
+      · exact hXall r'' h1 hcx c hcu
+      · simp only [List.mem_singleton] at h1
+        subst h1
+        exact hXall r hr (compat_trans hc hcx) c (by rw [← htree]; exact hcu)
+    intro x hx
+    rcases List.mem_append.1 hx with h1 | h1
+    · exact key x h1
+    · simp only [List.mem_singleton] at h1
+      subst h1
+      obtain ⟨X, hX, hXall⟩ := key r hr
+      exact ⟨X, hX, fun r'' hr'' hcx => hXall r'' hr'' (compat_trans hcx (by rw [compat_comm]; exact hc))⟩
+  obtain ⟨A'', hA''⟩ := (fails_iff_incompatible_nested (cs ++ [r']) hf').1.2 hLB'
+  have hA0 := hA''
+  rw [aggregateAll_snoc, h] at hA0
+  simp only at hA0
+  cases ha : aggregate r'.1 r'.2.1 r'.2.2 A with
+  | error e => rw [ha] at hA0; cases hA0
+  | ok us =>
+    obtain ⟨u, A'⟩ := us
+    rw [ha] at hA0
+    simp only [Except.ok.injEq] at hA0
+    subst hA0
+    refine ⟨A', by cases u; rfl, ?_⟩
+    intro q hq m m' hm hm'
+    have hG := nfrag_invariant cs hf A h
+    have hG' := nfrag_invariant (cs ++ [r']) hf' A' hA''
+    have hall := (nfragB_spec hf).1
+    have hall' := (nfragB_spec hf').1
+    have happ : withNForests (cs ++ [r']) = withNForests cs ++ withNForests [r'] := by
+      simp only [withNForests, List.filterMap_append]
+    obtain ⟨Gq, hmemq, _⟩ := mem_withNForests (fun r hr => (hall r hr).1) hq
+    obtain ⟨G, hmemr, hfG⟩ := mem_withNForests (fun r hr => (hall r hr).1) hr
+    have hsub : ∀ p, p ∈ (withNForests cs).reverse → p ∈ (withNForests (cs ++ [r'])).reverse := by
+      intro p hp
+      rw [happ]
+      simp only [List.mem_reverse] at hp ⊢
+      exact List.mem_append_left _ hp
+    have hcopy : ∀ p', p' ∈ (withNForests (cs ++ [r'])).reverse →
+        ∃ p, p ∈ (withNForests cs).reverse ∧ compat p.1.1 p'.1.1 = true ∧ p.2 = p'.2 := by
+      intro p' hp'
+      rw [happ] at hp'
+      simp only [List.mem_reverse] at hp'
+      rcases List.mem_append.1 hp' with h1 | h1
+      · exact ⟨p', by simpa using h1, compat_refl _, rfl⟩
+      · obtain ⟨hm1, hf1⟩ := withNForests_mem h1
+        simp only [List.mem_singleton] at hm1
+        refine ⟨(r, G), by simpa using hmemr, by rw [hm1]; exact hc, ?_⟩
+        have e1 := (nestForest_spec hfG).2
+        have e2 := (nestForest_spec hf1).2
+        rw [hm1, htree, e1] at e2
+        simp only [Option.some.injEq, Tree.instance.injEq] at e2
+        exact e2
+    have hmemq0 : (q, Gq) ∈ (withNForests cs).reverse := by simpa using hmemq
+    obtain ⟨F, hF, _⟩ := hG.tinv.sat (q, Gq) hmemq0
+    obtain ⟨F', hF', _⟩ := hG'.tinv.sat (q, Gq) (hsub _ hmemq0)
+    rw [mergedTree_det hm (impN_merged hF), mergedTree_det hm' (impN_merged hF')]
+    exact ginvN_equiv_ext hG hG' hsub hcopy (q := (q, Gq)) hmemq0 hF hF'
+
+/-- `qB'`: the requirement `qB` once more, from another collection, under a lower version -/
+def nB' : Types := { nB with uid := 7 }
+def qB' : Req := ("a:b/c@1.1.0".toList, nB', .instance 3)
+
+example : qB ∈ [qA, qB] ∧ nfragB ([qA, qB] ++ [qB']) = true ∧ compat qB.1 qB'.1 = true ∧
+    qB'.2.1.unfold qB'.2.2 = qB.2.1.unfold qB.2.2 ∧ (aggregateAll [qA, qB] Agg.empty).toOption.isSome = true := by
+  refine ⟨by decide, by decide +kernel, by decide, by decide +kernel, by decide +kernel⟩
 
 end Wac.Props.C09Nested
